@@ -1,4 +1,7 @@
 import ArcaModel.Props.C03
+import ArcaModel.Lemmas.PermEqTy
+import ArcaModel.Lemmas.TerminatesRec
+import ArcaModel.Model.WFCheck
 /-
   C12  Schema operations are pure: deterministic, argument-preserving, history-free.
 
@@ -181,5 +184,461 @@ theorem C12_rules_order (props props' : List (String × PropT)) (isSet : String 
 #print axioms C12_map_input_order
 #print axioms C12_oneof_member_order
 #print axioms C12_rules_order
+
+
+/-! ## deep order independence: values equal up to the order of map entries at every depth
+
+`v ≈ᵥ v'` (`V.PermEq`, Lemmas/PermEq.lean): `v'` is `v` with the entries of every map, at every
+depth, listed in another order - the model's rendering of "the same Go value, iterated differently".
+`V.DistinctKeys v`: `v` is a genuine Go value in the one respect that matters here - no map inside
+it holds the same STRING key twice. (An association list can; the first entry then answers a lookup,
+and which one is first is exactly what the order decides - see `C12_duplicate_keys_needed`.)
+
+What is proved (`C12_value_order_independent`): every operation, on every schema (well-formed or
+not), at every budget, accepts `v` iff it accepts `v'`, and the results are again equal up to order
+(for Validate and data-mode compatibility the result is the unit value, `C12_validate_result_unit`).
+What cannot be proved, because it is false: that a REJECTION is of the same kind. A traversal stops
+at the first entry that fails, so when a map holds an entry that yields an error and another that
+panics (or never returns), the order decides which is seen - `C12_panic_or_error_by_order`,
+`C12_hang_or_error_by_order`. On a well-formed schema nothing panics (`C04`), so there the only
+kinds are error and out-of-budget, and with a budget that suffices for both orders an error is an
+error under both (`C12_value_order_error_iff`); the path of the error names the first faulty entry
+in iteration order and may differ. -/
+
+/-- **C12, deep.** Reordering map entries at any depth of the argument changes neither the verdict
+    nor (up to such reordering) the result, for all four operations, every schema and environment,
+    every budget. -/
+theorem C12_value_order_independent (x : Ext) (n : Nat) (op : Op) (env : Env) (t : Ty) {v v' : V}
+    (h : v ≈ᵥ v') (hd : v.DistinctKeys) :
+    (∀ r, run x n op env t v = .ok r → ∃ r', run x n op env t v' = .ok r' ∧ r ≈ᵥ r') ∧
+    (∀ r', run x n op env t v' = .ok r' → ∃ r, run x n op env t v = .ok r ∧ r ≈ᵥ r') ∧
+    ((∀ r, run x n op env t v ≠ .ok r) ↔ (∀ r', run x n op env t v' ≠ .ok r')) := by
+  have hrel := run_permEq x n op env t v v' h hd
+  refine ⟨fun r hr => hrel.ok_left hr, fun r' hr' => hrel.ok_right hr', ?_, ?_⟩
+  · intro hno r' hr'
+    obtain ⟨r, hr, _⟩ := hrel.ok_right hr'
+    exact hno r hr
+  · intro hno r hr
+    obtain ⟨r', hr', _⟩ := hrel.ok_left hr
+    exact hno r' hr'
+
+/-- the same as one relation on the two outcomes (`Out.Rel`: both ok and related, or neither ok) -/
+theorem C12_value_order_rel (x : Ext) (n : Nat) (op : Op) (env : Env) (t : Ty) {v v' : V}
+    (h : v ≈ᵥ v') (hd : v.DistinctKeys) :
+    Out.Rel V.PermEq (run x n op env t v) (run x n op env t v') ∧
+      (run x n op env t v).isOk = (run x n op env t v').isOk :=
+  ⟨run_permEq x n op env t v v' h hd, (run_permEq x n op env t v v' h hd).isOk_eq⟩
+
+/-- Validate and data-mode compatibility return the unit value: for them "related results" says
+    nothing more than "both accepted". -/
+theorem C12_validate_result_unit (x : Ext) : ∀ (n : Nat) (op : Op) (env : Env) (t : Ty) (v r : V),
+    op = .V ∨ op = .C → run x n op env t v = .ok r → r = unitV
+  | 0, _, _, _, _, _, _, h => by simp [run] at h
+  | n + 1, op, env, t, v, r, hop, h => by
+    have ih := C12_validate_result_unit x n
+    have hdone : ∀ {r : V}, (done : Out V) = .ok r → r = unitV := by
+      intro r h; simp only [done, Out.ok.injEq] at h; exact h.symm
+    have hbind : ∀ {α} {o : Out α} {r : V}, (o.bind fun _ => done) = .ok r → r = unitV := by
+      intro α o r h; obtain ⟨_, _, h⟩ := bind_eq_ok h; exact hdone h
+    cases t <;> simp only [run] at h
+    case int a b u =>
+      rcases hop with rfl | rfl <;> simp only [runInt] at h <;>
+      · obtain ⟨_, _, h⟩ := bind_eq_ok h; exact hbind h
+    case float a b u =>
+      rcases hop with rfl | rfl <;> simp only [runFloat] at h <;>
+      · obtain ⟨_, _, h⟩ := bind_eq_ok h; exact hbind h
+    case str a b p =>
+      rcases hop with rfl | rfl <;> simp only [runStr] at h
+      · obtain ⟨_, _, h⟩ := bind_eq_ok h; exact hbind h
+      · split at h
+        · exact hbind h
+        · simp [Out.cerr] at h
+    case bool =>
+      rcases hop with rfl | rfl <;> simp only [runBool] at h <;> exact hbind h
+    case pattern =>
+      rcases hop with rfl | rfl <;> simp only [runPattern] at h <;>
+      · split at h
+        · exact hdone h
+        · simp [Out.cerr] at h
+    case enumInt vals u =>
+      rcases hop with rfl | rfl <;> simp only [runEnumInt] at h <;>
+      · obtain ⟨_, _, h⟩ := bind_eq_ok h
+        split at h
+        · exact hdone h
+        · simp [Out.cerr] at h
+    case enumStr vals =>
+      rcases hop with rfl | rfl <;> simp only [runEnumStr] at h <;>
+      · obtain ⟨_, _, h⟩ := bind_eq_ok h
+        split at h
+        · exact hdone h
+        · simp [Out.cerr] at h
+    case list item a b =>
+      unfold runList at h
+      split at h
+      · simp [Out.cerr] at h
+      · rcases hop with rfl | rfl <;> simp only at h
+        · obtain ⟨_, _, h⟩ := bind_eq_ok h; exact hbind h
+        · exact hbind h
+    case map kt vt a b =>
+      unfold runMap at h
+      split at h
+      · simp [Out.cerr] at h
+      · obtain ⟨_, _, h⟩ := bind_eq_ok h
+        rcases hop with rfl | rfl <;> simp only at h <;> exact hbind h
+    case obj id props =>
+      rcases hop with rfl | rfl <;> simp only [runObj] at h
+      · split at h
+        · split at h
+          · simp [Out.cerr] at h
+          · obtain ⟨_, _, h⟩ := bind_eq_ok h
+            obtain ⟨_, _, h⟩ := bind_eq_ok h
+            simp only [beq_self_eq_true, if_true] at h
+            exact hdone h
+        · simp [Out.cerr] at h
+      · split at h
+        · split at h
+          · simp [Out.cerr] at h
+          · unfold objCompatMap at h
+            obtain ⟨_, _, h⟩ := bind_eq_ok h
+            split at h
+            · simp [Out.cerr] at h
+            · exact hdone h
+        · exact hbind h
+    case oneOf ik disc inl members =>
+      rcases hop with rfl | rfl <;> simp only [runOneOf] at h <;>
+      · split at h
+        · split at h
+          · simp [Out.cerr] at h
+          · obtain ⟨_, _, h⟩ := bind_eq_ok h
+            first | exact hbind h | exact hdone h
+        · simp [Out.cerr] at h
+    case ref id =>
+      split at h
+      · simp at h
+      · exact ih _ _ _ _ _ hop h
+    case scope objs root =>
+      split at h
+      · simp at h
+      · exact ih _ _ _ _ _ hop h
+    case any =>
+      rcases hop with rfl | rfl <;> simp only [runAny] at h
+      · exact hbind h
+      · unfold anyCompat at h
+        split at h
+        · exact hbind h
+        · exact hbind h
+        · exact hbind h
+        · obtain ⟨_, _, h⟩ := bind_eq_ok h
+          split at h
+          · exact hdone h
+          · split at h
+            · simp [Out.cerr] at h
+            · exact hdone h
+        · exact hbind h
+
+
+/-- On a well-formed schema no order panics; and when the budget suffices for both orders (neither
+    outcome is `fuel` - a statement about the model's recursion budget, see
+    `C12_hang_or_error_by_order`), an error under one order is an error under the other. Only the
+    PATH of the error may differ: it names the first faulty entry in iteration order. -/
+theorem C12_value_order_error_iff (x : Ext) (n : Nat) (op : Op) (env : Env) (t : Ty) {v v' : V}
+    (h : v ≈ᵥ v') (hd : v.DistinctKeys) (henv : EnvWF env) (hwf : WF env t)
+    (hnf : run x n op env t v ≠ .fuel) (hnf' : run x n op env t v' ≠ .fuel) :
+    (run x n op env t v ≠ .panic ∧ run x n op env t v' ≠ .panic) ∧
+    ((∃ e, run x n op env t v = .err e) ↔ (∃ e', run x n op env t v' = .err e')) := by
+  have hrel := run_permEq x n op env t v v' h hd
+  have hp : run x n op env t v ≠ .panic := (run_np_aux x n op env t v henv hwf).1
+  have hp' : run x n op env t v' ≠ .panic := (run_np_aux x n op env t v' henv hwf).1
+  refine ⟨⟨hp, hp'⟩, ?_⟩
+  cases h1 : run x n op env t v <;> cases h2 : run x n op env t v' <;> simp_all
+
+/-! ### what is false, by counter-example -/
+
+/-- externals that are never consulted in the examples below -/
+def c12NoExt : Ext := ⟨fun _ => none, fun _ => "", fun _ => false, fun _ _ => false⟩
+
+/-- a map whose values are a dangling reference (not well-formed: `ApplyNamespace` never ran) -/
+def c12Dangling : Ty := .map .bool (.ref "missing") none none
+/-- `{nil: 1, true: 1}`: the key `nil` is not a bool (error), the value of `true` hits the reference (panic) -/
+def c12DangA : V := .map .anyAny [(.nil, .int .int64 1), (.bool true, .int .int64 1)]
+def c12DangB : V := .map .anyAny [(.bool true, .int .int64 1), (.nil, .int .int64 1)]
+
+/-- Without well-formedness the KIND of failure depends on the order: the same map is rejected with
+    an error when the faulty key is visited first, and panics when the entry with the dangling
+    reference is. (A candidate defect only for schemas that escaped `ApplyNamespace`; on a
+    well-formed schema nothing panics.) -/
+theorem C12_panic_or_error_by_order (x : Ext) (n : Nat) :
+    c12DangA ≈ᵥ c12DangB ∧ c12DangA.DistinctKeys ∧
+    (run x (n + 2) .U [] c12Dangling c12DangA).isErr = true ∧
+    run x (n + 2) .U [] c12Dangling c12DangB = .panic :=
+  ⟨V.permEq_of_perm (List.Perm.swap ..), distinctB_sound 5 _ (by decide), rfl, rfl⟩
+
+/-- a map whose values are the self-referential single-property object `scope{A{next: ref A}}`
+    (well-formed; the known non-terminating shape of C04) -/
+def c12Hang : Ty := .map .bool selfLoop none none
+/-- `{true: 5, false: {"zz": 1}}`: the value `5` recurses for ever, the value `{"zz": 1}` is rejected -/
+def c12HangA : V := .map .anyAny [(.bool true, .int .int64 5), (.bool false, .map .strAny [(.str "zz", .int .int64 1)])]
+def c12HangB : V := .map .anyAny [(.bool false, .map .strAny [(.str "zz", .int .int64 1)]), (.bool true, .int .int64 5)]
+
+/-- Even on a well-formed schema, "does not return" versus "returns an error" depends on the order,
+    at EVERY budget: the entry that recurses for ever (known defect: `A{next: ref A}` with a non-map
+    input overflows the stack) hides the faulty entry, or the faulty entry is reported before the
+    other is reached. This is the order dependence that the non-termination defect induces; it
+    disappears with it (`C04_terminates_guarded` / `_acyclic`: then neither order is `fuel`). -/
+theorem C12_hang_or_error_by_order (x : Ext) (n : Nat) :
+    c12HangA ≈ᵥ c12HangB ∧ c12HangA.DistinctKeys ∧ WF [] c12Hang ∧
+    run x n .U [] c12Hang c12HangA = .fuel ∧
+    (run x (n + 3) .U [] c12Hang c12HangB).isErr = true := by
+  refine ⟨V.permEq_of_perm (List.Perm.swap ..), distinctB_sound 5 _ (by decide), wfB_sound 10 [] _ (by decide), ?_, rfl⟩
+  cases n with
+  | zero => rfl
+  | succ n =>
+    have hv := selfLoop_fuel x (v := .int .int64 5) rfl n
+    show runMap (run x n) .U [] .bool selfLoop none none c12HangA = .fuel
+    simp only [runMap, c12HangA, V.mapEntries?, checkLen, Out.bind, forKV, entryKV, hv]
+    cases n with
+    | zero => rfl
+    | succ m => rfl
+
+/-- a one-of with one member, and an association list that repeats the discriminator key -/
+def c12OneOf : Ty := .oneOf false "k" false [(.s "a", .obj "A" [])]
+def c12DupA : V := .map ⟨.string, true⟩ [(.str "k", .str "a"), (.str "k", .str "zzz")]
+def c12DupB : V := .map ⟨.string, true⟩ [(.str "k", .str "zzz"), (.str "k", .str "a")]
+
+/-- Why `DistinctKeys` is assumed: on an association list that repeats a string key (not a Go map)
+    the first entry answers the lookup, so the order decides the verdict. -/
+theorem C12_duplicate_keys_needed :
+    c12DupA ≈ᵥ c12DupB ∧ ¬ c12DupA.DistinctKeys ∧
+    (run c12NoExt 3 .V [] c12OneOf c12DupA).isOk = true ∧
+    (run c12NoExt 3 .V [] c12OneOf c12DupB).isErr = true := by
+  refine ⟨V.permEq_of_perm (List.Perm.swap ..), ?_, by decide, by decide⟩
+  intro h
+  have := h.top
+  simp [c12DupA, V.TopDistinct, strKeysOf, V.strKey?] at this
+
+/-! ### a concrete instance: object → map → list of maps, reordered at every level -/
+
+def c12Schema : Ty :=
+  .obj "O"
+    [("m", .mk (.map (.str none none none)
+                  (.list (.map (.str none none none) (.int none none none) none none) none none) none none)
+            true [] [] [] none false),
+     ("n", .mk (.int none none none) false [] [] [] none false)]
+
+/-- `{"m": {"p": [{"a": 1, "b": 2}, {"c": 3}], "q": []}, "n": 5}` -/
+def c12V : V :=
+  .map ⟨.string, true⟩
+    [(.str "m", .map ⟨.string, true⟩
+        [(.str "p", .list [.map ⟨.string, true⟩ [(.str "a", .int .int64 1), (.str "b", .int .int64 2)],
+                           .map ⟨.string, true⟩ [(.str "c", .int .int64 3)]]),
+         (.str "q", .list [])]),
+     (.str "n", .int .int64 5)]
+
+/-- the same value with the top-level entries, the entries of `m`, and the entries of the first
+    list element each visited in the other order (the list keeps its order) -/
+def c12V' : V :=
+  .map ⟨.string, true⟩
+    [(.str "n", .int .int64 5),
+     (.str "m", .map ⟨.string, true⟩
+        [(.str "q", .list []),
+         (.str "p", .list [.map ⟨.string, true⟩ [(.str "b", .int .int64 2), (.str "a", .int .int64 1)],
+                           .map ⟨.string, true⟩ [(.str "c", .int .int64 3)]])])]
+
+example : c12V ≈ᵥ c12V' := permEqB_sound 10 _ _ (by decide)
+example : c12V.DistinctKeys := distinctB_sound 10 _ (by decide)
+/-- reordering a LIST is not a `PermEq` (the check is sound only, so this is shown by inversion) -/
+example : ¬ (V.list [.int .int64 1, .int .int64 2] ≈ᵥ V.list [.int .int64 2, .int .int64 1]) := by
+  intro h
+  cases V.permEq_list_iff.mp h with
+  | cons h1 _ => cases h1
+
+/-- both orders are accepted ... -/
+example : (run c12NoExt 6 .U [] c12Schema c12V).isOk = true := by decide
+example : (run c12NoExt 6 .U [] c12Schema c12V').isOk = true := by decide
+example : (run c12NoExt 6 .S [] c12Schema c12V).isOk = true := by decide
+example : (run c12NoExt 6 .S [] c12Schema c12V').isOk = true := by decide
+
+/-- ... with these results, each in the order of its input (by evaluation) ... -/
+example : run c12NoExt 6 .U [] c12Schema c12V = .ok
+    (.map ⟨.string, true⟩
+      [(.str "m", .map ⟨.string, false⟩
+          [(.str "p", .list [.map ⟨.string, false⟩ [(.str "a", .int .int64 1), (.str "b", .int .int64 2)],
+                             .map ⟨.string, false⟩ [(.str "c", .int .int64 3)]]),
+           (.str "q", .list [])]),
+       (.str "n", .int .int64 5)]) := rfl
+example : run c12NoExt 6 .U [] c12Schema c12V' = .ok
+    (.map ⟨.string, true⟩
+      [(.str "n", .int .int64 5),
+       (.str "m", .map ⟨.string, false⟩
+          [(.str "q", .list []),
+           (.str "p", .list [.map ⟨.string, false⟩ [(.str "b", .int .int64 2), (.str "a", .int .int64 1)],
+                             .map ⟨.string, false⟩ [(.str "c", .int .int64 3)]])])]) := rfl
+
+/-- ... and the instance of the theorem: the two results are equal up to order at every depth,
+    for each of the four operations and every budget -/
+example (op : Op) (n : Nat) :
+    Out.Rel V.PermEq (run c12NoExt n op [] c12Schema c12V) (run c12NoExt n op [] c12Schema c12V') :=
+  (C12_value_order_rel c12NoExt n op [] c12Schema (permEqB_sound 10 _ _ (by decide))
+    (distinctB_sound 10 _ (by decide))).1
+
+example : ∃ r r', run c12NoExt 6 .U [] c12Schema c12V = .ok r ∧ run c12NoExt 6 .U [] c12Schema c12V' = .ok r' ∧ r ≈ᵥ r' := by
+  have h := (C12_value_order_independent c12NoExt 6 .U [] c12Schema (v := c12V) (v' := c12V')
+    (permEqB_sound 10 _ _ (by decide)) (distinctB_sound 10 _ (by decide))).1
+  cases hr : run c12NoExt 6 .U [] c12Schema c12V with
+  | ok r => obtain ⟨r', h1, h2⟩ := h r hr; exact ⟨r, r', rfl, h1, h2⟩
+  | _ => exact absurd (show (run c12NoExt 6 .U [] c12Schema c12V).isOk = true by decide) (by rw [hr]; simp [Out.isOk])
+
+/-- a rejected instance: `"n"` is not an integer in either order; the reordered value is rejected too -/
+def c12Bad : V := .map ⟨.string, true⟩ [(.str "m", .map ⟨.string, true⟩ []), (.str "n", .list [])]
+def c12Bad' : V := .map ⟨.string, true⟩ [(.str "n", .list []), (.str "m", .map ⟨.string, true⟩ [])]
+example : (run c12NoExt 6 .U [] c12Schema c12Bad).isErr = true ∧ (run c12NoExt 6 .U [] c12Schema c12Bad').isErr = true := by
+  decide
+/-- well-formedness of the example schema (hypothesis of `C12_value_order_error_iff`) -/
+example : EnvWF [] ∧ WF [] c12Schema := ⟨fun _ h => (by cases h), wfB_sound 10 [] _ (by decide)⟩
+
+#print axioms C12_value_order_independent
+#print axioms C12_value_order_rel
+#print axioms C12_validate_result_unit
+#print axioms C12_value_order_error_iff
+#print axioms C12_panic_or_error_by_order
+#print axioms C12_hang_or_error_by_order
+#print axioms C12_duplicate_keys_needed
+
+
+/-! ## deep order independence: schemas equal up to the order of their tables
+
+`t ≈ₜ t'` (`Ty.PermEq`, Lemmas/PermEqTy.lean): the same schema up to the order of property tables,
+one-of member tables, scope tables and enum value sets - everything the SDK keeps in a Go map - at
+every depth; `EnvEq env env'` the same for the objects of the enclosing scope. `Ty.Distinct t` /
+`EnvDistinct env`: the tables are genuine Go maps (names pairwise distinct) and the defaults genuine
+Go values. Unlike the value side the RESULTS differ here (in order only): the defaults of absent
+properties are appended in table order. -/
+
+/-- the three readings of `Out.Rel V.PermEq o o'` -/
+theorem Out.Rel.unpack {o o' : Out V} (hrel : Out.Rel V.PermEq o o') :
+    (∀ r, o = .ok r → ∃ r', o' = .ok r' ∧ r ≈ᵥ r') ∧
+    (∀ r', o' = .ok r' → ∃ r, o = .ok r ∧ r ≈ᵥ r') ∧
+    ((∀ r, o ≠ .ok r) ↔ (∀ r', o' ≠ .ok r')) := by
+  refine ⟨fun r hr => hrel.ok_left hr, fun r' hr' => hrel.ok_right hr', ?_, ?_⟩
+  · intro hno r' hr'
+    obtain ⟨r, hr, _⟩ := hrel.ok_right hr'
+    exact hno r hr
+  · intro hno r hr
+    obtain ⟨r', hr', _⟩ := hrel.ok_left hr
+    exact hno r' hr'
+
+/-- **C12, schema side.** Reordering the property table of any object, the member table of any
+    one-of, the object table of any scope (and of the enclosing scope), the values of any enum, at
+    any depth, changes neither the verdict nor - up to the order of map entries - the result. -/
+theorem C12_schema_order_independent (x : Ext) (n : Nat) (op : Op) {env env' : Env} {t t' : Ty} {v : V}
+    (henv : EnvEq env env') (hdenv : EnvDistinct env) (ht : t ≈ₜ t') (hdt : t.Distinct) (hdv : v.DistinctKeys) :
+    (∀ r, run x n op env t v = .ok r → ∃ r', run x n op env' t' v = .ok r' ∧ r ≈ᵥ r') ∧
+    (∀ r', run x n op env' t' v = .ok r' → ∃ r, run x n op env t v = .ok r ∧ r ≈ᵥ r') ∧
+    ((∀ r, run x n op env t v ≠ .ok r) ↔ (∀ r', run x n op env' t' v ≠ .ok r')) :=
+  (run_permEqT x n op env env' t t' v henv hdenv ht hdt hdv).unpack
+
+/-- **C12, both sides at once**: schema, environment and argument each given in another order. -/
+theorem C12_order_independent (x : Ext) (n : Nat) (op : Op) {env env' : Env} {t t' : Ty} {v v' : V}
+    (henv : EnvEq env env') (hdenv : EnvDistinct env) (ht : t ≈ₜ t') (hdt : t.Distinct)
+    (hv : v ≈ᵥ v') (hdv : v.DistinctKeys) :
+    (∀ r, run x n op env t v = .ok r → ∃ r', run x n op env' t' v' = .ok r' ∧ r ≈ᵥ r') ∧
+    (∀ r', run x n op env' t' v' = .ok r' → ∃ r, run x n op env t v = .ok r ∧ r ≈ᵥ r') ∧
+    ((∀ r, run x n op env t v ≠ .ok r) ↔ (∀ r', run x n op env' t' v' ≠ .ok r')) :=
+  ((run_permEqT x n op env env' t t' v henv hdenv ht hdt hdv).comp
+    (run_permEq x n op env' t' v v' hv hdv) (fun _ _ _ => V.PermEq.trans)).unpack
+
+/-- one level, as corollaries: the property table of an object ... -/
+theorem C12_props_order (x : Ext) (n : Nat) (op : Op) (env : Env) (id : String) {props props' : List (String × PropT)}
+    {v : V} (hp : props.Perm props') (hdenv : EnvDistinct env) (hdt : (Ty.obj id props).Distinct) (hdv : v.DistinctKeys) :
+    Out.Rel V.PermEq (run x n op env (.obj id props) v) (run x n op env (.obj id props') v) :=
+  run_permEqT x n op env env _ _ v (EnvEq.refl env) hdenv (Ty.permEq_obj_of (PropsEq.of_perm hp)) hdt hdv
+
+/-- ... and the object table of a scope -/
+theorem C12_scope_order (x : Ext) (n : Nat) (op : Op) (env : Env) (root : String) {objs objs' : List (String × Ty)}
+    {v : V} (hp : objs.Perm objs') (hdenv : EnvDistinct env) (hdt : (Ty.scope objs root).Distinct) (hdv : v.DistinctKeys) :
+    Out.Rel V.PermEq (run x n op env (.scope objs root) v) (run x n op env (.scope objs' root) v) :=
+  run_permEqT x n op env env _ _ v (EnvEq.refl env) hdenv (Ty.permEq_scope_of (EnvEq.of_perm hp)) hdt hdv
+
+/-! ### a concrete instance -/
+
+def c12PA : PropT := .mk (.int none none none) false [] [] [] (some ⟨some (.int .int64 1), none⟩) false
+def c12PB : PropT := .mk (.str none none none) false [] [] [] (some ⟨some (.str "x"), none⟩) false
+def c12PSub : PropT := .mk (.ref "Sub") false [] [] [] none false
+def c12PE (vals : List String) : PropT := .mk (.enumStr vals) true [] [] [] none false
+
+/-- `scope{Root{a: int = 1, b: string = "x", sub: Sub}, Sub{e: enum{p, q}}}` -/
+def c12Scope : Ty :=
+  .scope [("Root", .obj "Root" [("a", c12PA), ("b", c12PB), ("sub", c12PSub)]),
+          ("Sub", .obj "Sub" [("e", c12PE ["p", "q"])])] "Root"
+/-- the same with the scope table, `Root`'s property table and the enum's values in other orders -/
+def c12Scope' : Ty :=
+  .scope [("Sub", .obj "Sub" [("e", c12PE ["q", "p"])]),
+          ("Root", .obj "Root" [("b", c12PB), ("sub", c12PSub), ("a", c12PA)])] "Root"
+
+theorem c12Scope_permEq : c12Scope ≈ₜ c12Scope' := by
+  refine Ty.permEq_scope_of ⟨[("Root", .obj "Root" [("b", c12PB), ("sub", c12PSub), ("a", c12PA)]),
+    ("Sub", .obj "Sub" [("e", c12PE ["q", "p"])])], .cons ⟨rfl, ?_⟩ (.cons ⟨rfl, ?_⟩ .nil), .swap ..⟩
+  · exact Ty.permEq_obj_of (PropsEq.of_perm ((List.Perm.swap ..).trans ((List.Perm.swap ..).cons _)))
+  · exact Ty.permEq_obj_of ⟨[("e", c12PE ["q", "p"])],
+      .cons ⟨rfl, .enumStr (.swap ..), rfl, rfl, rfl, rfl, rfl, rfl⟩ .nil, .refl _⟩
+
+example : c12Scope.Distinct := tyDistinctB_sound 10 _ (by decide)
+example : EnvDistinct [] := ⟨List.nodup_nil, fun _ h => (by cases h)⟩
+example : WF [] c12Scope := wfB_sound 10 [] _ (by decide)
+
+/-- `{"sub": {"e": "q"}}` -/
+def c12SV : V := .map ⟨.string, true⟩ [(.str "sub", .map ⟨.string, true⟩ [(.str "e", .str "q")])]
+
+/-- the two results by evaluation: the defaults arrive in table order ... -/
+example : run c12NoExt 8 .U [] c12Scope c12SV = .ok
+    (.map ⟨.string, true⟩ [(.str "sub", .map ⟨.string, true⟩ [(.str "e", .str "q")]),
+      (.str "a", .int .int64 1), (.str "b", .str "x")]) := rfl
+example : run c12NoExt 8 .U [] c12Scope' c12SV = .ok
+    (.map ⟨.string, true⟩ [(.str "sub", .map ⟨.string, true⟩ [(.str "e", .str "q")]),
+      (.str "b", .str "x"), (.str "a", .int .int64 1)]) := rfl
+
+/-- ... and the instance of the theorem, for every operation and budget -/
+example (op : Op) (n : Nat) :
+    Out.Rel V.PermEq (run c12NoExt n op [] c12Scope c12SV) (run c12NoExt n op [] c12Scope' c12SV) :=
+  run_permEqT c12NoExt n op [] [] _ _ _ (EnvEq.refl []) ⟨List.nodup_nil, fun _ h => (by cases h)⟩
+    c12Scope_permEq (tyDistinctB_sound 10 _ (by decide)) (distinctB_sound 10 _ (by decide))
+
+/-- a table that repeats a name is not a Go map, and there the order does matter: the first entry
+    named `a` answers the lookup -/
+def c12DupProps : List (String × PropT) := [("a", .mk (.int none none none) false [] [] [] none false),
+  ("a", .mk .bool false [] [] [] none false)]
+example : (run c12NoExt 3 .U [] (.obj "O" c12DupProps) (.map ⟨.string, true⟩ [(.str "a", .int .int64 7)])).isOk = true ∧
+    (run c12NoExt 3 .U [] (.obj "O" c12DupProps.reverse) (.map ⟨.string, true⟩ [(.str "a", .int .int64 7)])).isErr = true := by
+  decide
+
+/-- an instance with a non-empty environment: a one-of over references, the environment, the member
+    table and the argument each in another order -/
+def c12Env : Env := [("One", .obj "One" []), ("Two", .obj "Two" [("z", c12PA)])]
+def c12Env' : Env := [("Two", .obj "Two" [("z", c12PA)]), ("One", .obj "One" [])]
+def c12Choice : Ty := .oneOf false "t" false [(.s "one", .ref "One"), (.s "two", .ref "Two")]
+def c12Choice' : Ty := .oneOf false "t" false [(.s "two", .ref "Two"), (.s "one", .ref "One")]
+def c12CV : V := .map ⟨.string, true⟩ [(.str "t", .str "two"), (.str "z", .int .int64 4)]
+def c12CV' : V := .map ⟨.string, true⟩ [(.str "z", .int .int64 4), (.str "t", .str "two")]
+
+theorem EnvDistinct.of_scope {env : Env} {root : String} (h : (Ty.scope env root).Distinct) : EnvDistinct env := by
+  cases h with
+  | scope hnd htys => exact ⟨hnd, htys⟩
+
+example : EnvEq c12Env c12Env' := EnvEq.of_perm (List.Perm.swap ..)
+example : EnvDistinct c12Env := EnvDistinct.of_scope (root := "One") (tyDistinctB_sound 10 _ (by decide))
+example : c12Choice ≈ₜ c12Choice' := Ty.permEq_oneOf_of (MembersEq.of_perm (List.Perm.swap ..))
+example : (run c12NoExt 6 .U c12Env c12Choice c12CV).isOk = true ∧ (run c12NoExt 6 .U c12Env' c12Choice' c12CV').isOk = true := by
+  decide
+example (op : Op) (n : Nat) :
+    (∀ r, run c12NoExt n op c12Env c12Choice c12CV ≠ .ok r) ↔ (∀ r', run c12NoExt n op c12Env' c12Choice' c12CV' ≠ .ok r') :=
+  (C12_order_independent c12NoExt n op (EnvEq.of_perm (List.Perm.swap ..))
+    (EnvDistinct.of_scope (root := "One") (tyDistinctB_sound 10 _ (by decide)))
+    (Ty.permEq_oneOf_of (MembersEq.of_perm (List.Perm.swap ..))) (tyDistinctB_sound 10 _ (by decide))
+    (permEqB_sound 10 _ _ (by decide)) (distinctB_sound 10 _ (by decide))).2.2
+
+#print axioms C12_schema_order_independent
+#print axioms C12_order_independent
+#print axioms C12_props_order
+#print axioms C12_scope_order
 
 end Arca
